@@ -61,9 +61,16 @@ func (c *verifScriptConn) Read(p []byte) (int, error) {
 // retry with a fresh connection after a dead pooled one), the error handed to the
 // forwarding handler still is a network error, so that the fallback is tried.
 //
-//verif:harness name=H17d-plain-errors tier=quick,thorough bounds="one TCP upstream with a connection pool; 1..2 consecutive exchanges; every dial either succeeds or is refused (net.Error), every write / read works, fails with a net.Error or hits EOF" reach=answered,network-failure,retried maxpaths=200000
+//verif:harness name=H17d-plain-errors tier=quick bounds="one TCP upstream with a connection pool; 1..2 consecutive exchanges; every dial either succeeds or is refused (net.Error), every write / read works, fails with a net.Error or hits EOF" reach=answered,network-failure,retried maxpaths=200000
 //verif:assume sockets are replaced by scripted connections; timeouts are not modelled (deadlines are accepted and ignored)
-func VerifC17PlainErrors() {
+func VerifC17PlainErrors() { verifC17PlainErrors(2) }
+
+// VerifC17PlainErrors3 is the thorough variant.
+//
+//verif:harness name=H17d-plain-errors3 tier=thorough bounds="as H17d-plain-errors with 1..3 consecutive exchanges" reach=answered,network-failure,retried maxpaths=5000000
+func VerifC17PlainErrors3() { verifC17PlainErrors(3) }
+
+func verifC17PlainErrors(maxEx int) {
 	u := NewUpstreamPlain(&UpstreamPlainConfig{Network: NetworkTCP, Address: netip.MustParseAddrPort("192.0.2.53:53")})
 	dials := 0
 	u.connsPoolTCP = pool.NewPool(2, func(ctx context.Context) (net.Conn, error) {
@@ -73,7 +80,7 @@ func VerifC17PlainErrors() {
 		}
 		return &verifScriptConn{writeOut: verifChoice(3), readOut: verifChoice(3)}, nil
 	})
-	n := 1 + verifChoice(2)
+	n := 1 + verifChoice(maxEx)
 	for k := 0; k < n; k++ {
 		req := &dns.Msg{}
 		req.SetQuestion("example.org.", dns.TypeA)
